@@ -16,6 +16,9 @@ for _p in ('C01', 'C02', 'C09', 'C14', 'C18', 'C19'):
 for _p in ('C06', 'C11'):
     CONSTS.setdefault(_p, []).append('CodeAgreeRto')
 CONSTS.setdefault('C15', []).append('CodeAgreeRtt')
+# raw.rs (header, RawMessage, attribute iterator, get_input_text) = Wire.hdr_valid / Tlv.dec_tlvs / InputText.input_text
+for _p in ('C03', 'C04', 'C09', 'C10', 'C18'):
+    CONSTS.setdefault(_p, []).append('CodeAgreeRaw')
 
 SUITES = {
     'attrval': dict(bin='attrval', nontrivial=r'^C [DE] '),
